@@ -10,8 +10,8 @@ ID = 'C13'
 LEVEL = 'exploration'
 RULE = (
     'E: one pair (x, xp) without and with one free variable y: every (trans, '
-    'set) pair of functions for 2 variables (256) and a seeded quarter '
-    '(quick: 1/16) of the 65 536 pairs for 3 variables x every subset of '
+    'set) pair of functions for 2 variables (256) and all (thorough; quick: '
+    'a seeded 1/16) of the 65 536 pairs for 3 variables x every subset of '
     'quantified variables x both quantifiers x every order that keeps the '
     'pair adjacent (either internal order; y above or below), and for image '
     'also the order with y between the pair. R: Hypothesis 2-3 pairs plus '
@@ -38,15 +38,18 @@ def plan(tier, seed):
                           stride=1, offset=0, seed=seed))
     orders3 = [['x', 'xp', 'y'], ['xp', 'x', 'y'], ['y', 'x', 'xp'],
                ['y', 'xp', 'x'], ['x', 'y', 'xp'], ['xp', 'y', 'x']]
-    stride = 4 if tier == 'thorough' else 16
-    for k, order in enumerate(orders3):
-        for part in range(2 if tier == 'thorough' else 1):
+    if tier == 'thorough':
+        # complete: 8 disjoint parts per order
+        for order in orders3:
+            for part in range(8):
+                specs.append(dict(kind='one', names=['x', 'xp', 'y'],
+                                  order=order, stride=8, offset=part,
+                                  seed=seed))
+    else:
+        for k, order in enumerate(orders3):
             specs.append(dict(kind='one', names=['x', 'xp', 'y'],
-                              order=order, stride=stride * (
-                                  2 if tier == 'thorough' else 1),
-                              offset=(seed + k + part * stride) % (
-                                  stride * (2 if tier == 'thorough' else 1)),
-                              seed=seed))
+                              order=order, stride=16,
+                              offset=(seed + k) % 16, seed=seed))
     for s in range(12 if tier == 'thorough' else 5):
         specs.append(dict(kind='random', seed=seed * 100 + s,
                           examples=1500 if tier == 'thorough' else 300))
@@ -147,7 +150,7 @@ def run_one(spec, out):
             out.fail('operand_changed', dict(base, t=t))
     out.sample(dict(base, op='preimage', trans=F // 3, set=F // 5, q=[1],
                     forall=False))
-    out.exhaustive = (spec['stride'] == 1)
+    out.exhaustive = (spec['stride'] in (1, 8))
 
 
 def _reraise(e):
